@@ -209,6 +209,128 @@ def r4(ctx):
     ctx.floor(rule, n, "C07.R4.sites")
 
 
+def _peel(e):
+    shape = []
+    while True:
+        if e[0] == "discr":
+            shape.append("discr")
+            e = e[1]
+        elif e[0] == "field":
+            shape.append("." + str(e[2]))
+            e = e[1]
+        elif e[0] == "downcast":
+            shape.append("as " + e[2])
+            e = e[1]
+        elif e[0] in ("ref", "deref", "mut"):
+            e = e[1]
+        elif e[0] == "cast":
+            e = e[2]
+        else:
+            break
+    return e, tuple(reversed(shape))
+
+
+def r6(ctx):
+    rule = "C07.R6"
+    ctx.rule(rule, "no declared bound is dropped: the SIZE range parser classifies `lo..hi` as unconstrained (Size::Any) only on decision "
+                   "paths where the lower bound is absent (MIN) or the literal 0 and the upper bound is absent (MAX) or the `no upper bound` "
+                   "sentinel; any other literal or a reference keeps Size::Range")
+    P = ctx.program()
+    bs = [b for b in P.bodies.values() if b.crate == "asn1rs_model" and "asn::size::Size" in b.path and b.name == "try_from"
+          and b.def_kind == "AssocFn" and "Peekable" in b.path]
+    if len(bs) != 1:
+        ctx.fail(rule, "anchor-lost:Size::try_from", "matched %d bodies" % len(bs))
+        return
+    b = bs[0]
+    O = X.Origins(b, P)
+    rng = anyb = None
+    for bb, j, st in b.all_statements():
+        if st["k"] == "assign" and st["rv"]["k"] == "agg" and st["rv"].get("adt", "").endswith("size::Size"):
+            if st["rv"]["variant"] == "Range":
+                rng = (bb, j, st)
+            elif st["rv"]["variant"] == "Any":
+                anyb = (bb, j, st)
+    if rng is None or anyb is None:
+        ctx.fail(rule, "anchor-lost:Size::Any/Range", "the range path of the SIZE parser builds Any: %s, Range: %s" % (anyb is not None, rng is not None),
+                 "%s:%d" % (b.file, b.line))
+        return
+
+    def option_of(ex):
+        e = ex
+        while e[0] in ("ref", "deref", "mut"):
+            e = e[1]
+        if e[0] == "call" and X.last_seg(e[1]) in ("unwrap_or", "unwrap_or_default", "unwrap_or_else") and e[3]:
+            return X.strip(e[3][0])
+        if e[0] == "unwrap_or":
+            return X.strip(e[1])
+        return X.strip(e)
+    LO = option_of(O.operand(rng[2]["rv"]["ops"][0], rng[0], rng[1]))
+    HI = option_of(O.operand(rng[2]["rv"]["ops"][1], rng[0], rng[1]))
+    # the verdict may be computed into a bool first (`let any = matches!(..)`): then the decision region ends where it becomes true
+    to_bb, other = anyb[0], rng[0]
+    for s_bb, ex, val in R.path_conditions(b, O, anyb[0]):
+        e = X.strip(ex)
+        if e[0] == "phi" and all(a[0] == "const" for a in e[1]):
+            t = b.blocks[s_bb]["term"]
+            l = t["op"]["pl"]["l"] if t["op"].get("k") in ("copy", "move") and not t["op"]["pl"]["p"] else None
+            # follow one copy
+            ds = b.defs.get(l, ())
+            if len(ds) == 1 and ds[0][2] == "assign" and ds[0][3]["k"] == "use" and ds[0][3]["op"].get("k") in ("copy", "move") and not ds[0][3]["op"]["pl"]["p"]:
+                l = ds[0][3]["op"]["pl"]["l"]
+                ds = b.defs.get(l, ())
+            tr = [d[0] for d in ds if d[2] == "assign" and d[3]["k"] == "use" and d[3]["op"].get("k") == "const" and bool(int(d[3]["op"].get("val", "0"))) == val]
+            fa = [d[0] for d in ds if d[2] == "assign" and d[3]["k"] == "use" and d[3]["op"].get("k") == "const" and bool(int(d[3]["op"].get("val", "0"))) != val]
+            if len(tr) == 1 and fa:
+                to_bb, other = tr[0], fa[0]
+    entry, paths = R.decision_paths(b, O, to_bb, other)
+    if not paths:
+        ctx.fail(rule, "anchor-lost:decision", "the decision between Size::Any and Size::Range could not be enumerated", span_loc(anyb[2]["sp"]))
+        return
+    sentinels = []
+    rc = [x for x in P.find("asn1rs_model", "::reconsider_constraints") if x.def_kind == "AssocFn"]
+    if len(rc) == 1:
+        sentinels = sorted({c.boundary for c in F.comparisons(rc[0], X.Origins(rc[0], P)) if c.kind == "eq" and c.rhs == "" and c.boundary > 2 ** 31})
+    S = sentinels[0] if len(sentinels) == 1 else None
+    recognised = 0
+    n = 0
+    for path in paths:
+        facts = {"lo": {}, "hi": {}}
+        for s_bb, c, v in path:
+            base, shape = _peel(c)
+            side = "lo" if X.strip(base) == LO else "hi" if X.strip(base) == HI else None
+            if side is None:
+                continue
+            recognised += 1
+            if shape == ("discr",):
+                facts[side]["opt"] = v
+            elif shape[-1:] == ("discr",):
+                facts[side]["variant"] = v
+            elif shape and shape[-1].startswith("."):
+                facts[side]["lit"] = v
+        n += 1
+        desc = []
+        bad = None
+        for side, zero in (("lo", 0), ("hi", S)):
+            f = facts[side]
+            absent = f.get("opt") == ("in", frozenset({0}))
+            lit = f.get("lit")
+            desc.append("%s: %s" % (side, "absent" if absent else ("literal %s" % sorted(lit[1]) if lit and lit[0] == "in" else "any value")))
+            if absent:
+                continue
+            if not (lit and lit[0] == "in" and lit[1] == frozenset({zero})):
+                bad = "a SIZE range whose %s bound is %s is classified as unconstrained (Size::Any): the declared bound is dropped" % (
+                    "lower" if side == "lo" else "upper", "any literal or reference" if not lit else "in %s" % sorted(lit[1]))
+        key = "Size::Any#path%d" % n
+        detail = {"function": b.path, "path": desc, "switches": [sb for sb, _, _ in path]}
+        if bad:
+            ctx.fail(rule, "Size::Any#" + ",".join(desc), bad, span_loc(anyb[2]["sp"]), detail)
+        else:
+            ctx.ok(rule, "Size::Any#" + ",".join(desc), detail)
+    if not recognised:
+        ctx.fail(rule, "anchor-lost:scrutinee", "no decision on the way to Size::Any tests the parsed bounds", span_loc(anyb[2]["sp"]))
+    ctx.floor(rule, n, "C07.R6.paths")
+
+
 def r5(ctx, rule="C07.R5"):
     ctx.rule(rule, "the extension marker is recorded wherever it is recognised: in the parsers of SEQUENCE/SET, CHOICE and ENUMERATED "
                    "every path from the consumption of the last `.` of `...` to the next loop iteration or to a success return "
@@ -263,3 +385,4 @@ def run(ctx):
     r3(ctx)
     r4(ctx)
     r5(ctx)
+    r6(ctx)
